@@ -30,3 +30,4 @@ _reg("C26")
 _reg("C20")
 _reg("C21")
 _reg("C23")
+_reg("C25")
